@@ -32,7 +32,7 @@ def strategy(draw, tier="quick"):
             "scale": draw(st.sampled_from([0.02, 0.3, 1.0, 3.0])),
             "offset": draw(st.sampled_from([0.0, 0.0, 5.0, 60.0, 500.0])), "seed": draw(st.integers(0, 2 ** 32 - 1)),
             "frame": draw(st.integers(0, nf - 1)), "parallel": draw(st.booleans()), "precentered": draw(st.integers(0, 4)) == 0,
-            "sel": draw(st.sampled_from(["none", "none", "equal", "different", "permuted"]))}
+            "sel": draw(st.sampled_from(["none", "none", "equal", "different", "permuted", "different-unsorted"]))}
     return case
 
 
@@ -81,6 +81,9 @@ def _sel(case, rng):
         p = rng.permutation(k)
         return a[p], a[p]
     b = np.sort(rng.choice(n, k, replace=False))
+    if case["sel"] == "different-unsorted":
+        # two different selections, each in its own arbitrary order: the k-th target atom is paired with the k-th reference atom
+        return a[rng.permutation(k)], b[rng.permutation(k)]
     return a, b
 
 
@@ -229,7 +232,7 @@ def run_case(case):
             if dev > r + slack or dev < r - slack:
                 viol.append(("superpose/not-optimal", "frame %d: unfitted deviation after superpose %.7g, Kabsch minimum %.7g (N=%d)" % (k, dev, r, len(ta))))
                 break
-    nontrivial = case["n"] % 4 != 0 or case["kind"] == "mirror" or case["offset"] > 50 or case["sel"] in ("different", "permuted")
+    nontrivial = case["n"] % 4 != 0 or case["kind"] == "mirror" or case["offset"] > 50 or case["sel"] in ("different", "permuted", "different-unsorted")
     if case["offset"] > 50:
         labels.append("offset>50nm")
     if n >= 1000:
